@@ -87,7 +87,8 @@ def corrupt(rng, d):
     elif k == "drop-params":
         d.pop("parameters", None)
     elif k == "unknown-type":
-        d["action_type"] = rng.choice(["ActionType.Teleport", "Teleport", "", "actiontype.ScanNetwork", "ActionType.scannetwork"])
+        d["action_type"] = rng.choice(["ActionType.Teleport", "Teleport", "", "actiontype.ScanNetwork", "ActionType.scannetwork", "ActionType.mro", "ActionType.__class__",
+                                        "ActionType.from_string", "ActionType._member_map_", "ActionType.name", "ActionType.value", "ActionType.__members__", "__doc__"])
     elif k == "unknown-key":
         ps[rng.choice(["speed", "sourcehost", "Source_host", ""])] = {"ip": "1.1.1.1"}
     elif k == "value-not-dict" and ps:
@@ -341,6 +342,7 @@ def main(prop, tier):
                             other[t] = other.get(t, 0) + 1
                 CC.run_sessions(drv, rng, info["tables"]["defender"], on_fail, coord_stats, 30 if q else 300, 40,
                                 {"burst": 0.1, "long_names": 0.2, "early_reset": 0.05})
+                CC.directed_long_episode(drv, rng, info["tables"]["defender"], on_fail, coord_stats, 2 if q else 20)
         finally:
             drv.close()
     code, nviol = V.finish()
